@@ -4,6 +4,7 @@ import (
 	"encoding/json"
 	"fmt"
 	"net/url"
+	"reflect"
 	"regexp"
 	"strconv"
 	"strings"
@@ -248,16 +249,65 @@ func (in *Interp) fmtArgs(c *gt.T, from int, ignoreErrors bool) ([]any, *RunErr)
 			}
 			return nil, err
 		}
+		if cyclic(v.V, nil) {
+			// a value that contains itself cannot be formatted: a run-time
+			// error at the call (repair D4)
+			return nil, in.errAt(c, "cannot format a list or map that contains itself")
+		}
 		out = append(out, v.V)
 	}
 	return out, nil
+}
+
+// cyclic reports whether v reaches itself; path holds the containers on the
+// way down (shared parts that are not on the path are fine).
+func cyclic(v any, path []any) bool {
+	same := func(a, b any) bool {
+		switch x := a.(type) {
+		case []any:
+			y, ok := b.([]any)
+			return ok && len(x) > 0 && len(y) > 0 && &x[0] == &y[0] && len(x) == len(y)
+		case map[string]any:
+			y, ok := b.(map[string]any)
+			return ok && reflect.ValueOf(x).Pointer() == reflect.ValueOf(y).Pointer()
+		}
+		return false
+	}
+	switch x := v.(type) {
+	case []any:
+		for _, p := range path {
+			if same(p, v) {
+				return true
+			}
+		}
+		for _, e := range x {
+			if cyclic(e, append(path, v)) {
+				return true
+			}
+		}
+	case map[string]any:
+		for _, p := range path {
+			if same(p, v) {
+				return true
+			}
+		}
+		for _, e := range x {
+			if cyclic(e, append(path, v)) {
+				return true
+			}
+		}
+	}
+	return false
 }
 
 func modelStrfmt(in *Interp, c *gt.T) (Val, *RunErr) {
 	needPoint(in)
 	k := pkey(argKey(c, 0))
 	f := argStrLit(c, 1)
-	args, _ := in.fmtArgs(c, 2, true)
+	args, ferr := in.fmtArgs(c, 2, true)
+	if ferr != nil {
+		return Void, ferr
+	}
 	in.Point.Set(k, Val{fmt.Sprintf(f, args...), TStr})
 	return Void, nil
 }
